@@ -135,11 +135,36 @@ def vector_overwritten(iv, vname, n_values=()):
     return False, 'after resize only elements %s%s are assigned' % (sorted(consts)[:4], (' and [%d, size)' % loop_from) if loop_from is not None else '')
 
 
+_STUB_CACHE = {}
+
+
+def falls_back_to_stub(prog, cls, owner, name, sig, scalar):
+    """the override of slot name/sig that class cls inherits from owner does, on an object of class cls, nothing but what the
+    base-class stub does: every path prints a literal containing MASA ERROR and returns -1.33 (an arity guard of a class that
+    serves several dimensions)"""
+    key = (id(prog), cls, name, sig)
+    if key in _STUB_CACHE:
+        return _STUB_CACHE[key]
+    res = False
+    c = prog.fn(owner + '::' + name, sig)
+    if c and c[0].body is not None and any(n.get('k') == 'if' for n in walk(c[0].body)):
+        E = terms.Evaluator(prog, dyn_class=cls, scalar=scalar, noreturn=('masa_exit',))
+        try:
+            outs = E.run(c[0])
+        except RecursionError:
+            outs = []
+        paths = list(outs) + [p for p in E.trace.exit_paths if p not in outs]
+        sentinel = (('neg', terms.num(Fraction(133, 100))), terms.num(Fraction(-133, 100)))
+        res = bool(paths) and all(o.kind == 'ret' and o.ret in sentinel and any(e[0] == 'print' and 'MASA ERROR' in e[1] for e in o.events) for o in paths)
+    _STUB_CACHE[key] = res
+    return res
+
+
 def run(ctx, prog):
     ctx.rule('C14.K1', 'get_list_mms<double> and <long double> register the same classes in the same order and contain nothing but registrations')
     ctx.rule('C14.K2', 'each constructor assigns mmsname one string literal: non-empty, pairwise distinct, its own normal form (no upper case, dash or blank); '
              'mmsname and dimension are written only in constructors of catalogue classes; return_name copies mmsname')
-    ctx.rule('C14.K3', 'constructor assigns dimension an integer literal equal to the largest number of Scalar coordinates among the evaluator overrides, minus one for classes with a time argument (tables/temporal.json)')
+    ctx.rule('C14.K3', 'the constructor chain leaves in dimension an integer constant equal to the largest number of Scalar coordinates among the evaluators the class provides (an override that only falls back to the base stub for this class is not provided), minus one for classes with a time argument (tables/temporal.json); no provided evaluator takes fewer coordinates than the dimension')
     ctx.rule('C14.K4', 'registered names == names given a default by init_var (set_var with an argument built from literals and earlier defaults, never the marker); '
              'every set_var name is registered; every registered vector is given a non-empty value in init_var')
     ctx.rule('C14.K5', 'the constructor calls init_var() after the last register_var/register_vec')
@@ -212,6 +237,8 @@ def run(ctx, prog):
             if len(st) == 1:
                 rhs = st[0]['args'][1] if st[0].get('k') == 'call' else st[0]['b']
                 lit = str_value(rhs)
+            if lit is None:
+                lit = cat.name_literal(prog, cls)      # the constructor chain evaluated (base constructors with arguments, tables)
             ok = lit is not None and lit != '' and lit == lit.lower() and '-' not in lit and ' ' not in lit
             ctx.ob('C14.K2', 'name|%s|%s' % (short, sc), ok, ctor.where,
                    'mmsname of %s is %r (must be one non-empty literal in normal form: lower case, no dash, no blank)' % (short, lit),
@@ -223,6 +250,10 @@ def run(ctx, prog):
             # ---- K3
             st = member_stores(ctor, 'dimension')
             dim = int_value(st[0]['b']) if len(st) == 1 and st[0].get('k') == 'bin' else None
+            if dim is None:
+                dv = cat.ctor_constants(prog, cls).get('dimension')
+                if dv is not None and dv[0] == 'num' and dv[1].denominator == 1:
+                    dim = int(dv[1])
             bv = cat.base_virtuals(prog, scalar)
             maxc = 0
             overrides = []
@@ -231,6 +262,8 @@ def run(ctx, prog):
                     continue
                 owner, mm = cat.resolve_virtual(prog, cls, name, sig)
                 if owner and owner != cat.BASE % scalar:
+                    if falls_back_to_stub(prog, cls, owner, name, sig, scalar):
+                        continue        # an override that, for this class, only forwards to the "not provided" stub
                     npar = [p for p in mm['params'] if p['t'] == scalar]
                     maxc = max(maxc, len(npar))
                     overrides.append((name, sig, owner))
@@ -238,6 +271,11 @@ def run(ctx, prog):
                 want = maxc - (1 if short in tt['temporal'] and short not in tt['dimension_counts_time'] else 0)
                 if short in tt.get('dimension_override', {}):
                     want = tt['dimension_override'][short]
+                few = sorted(set('%s(%d)' % (n_, len([p_ for p_ in prog.fn(o_ + '::' + n_, s_)[0].params if p_['t'] == scalar])) for n_, s_, o_ in overrides
+                                 if prog.fn(o_ + '::' + n_, s_) and 0 < len([p_ for p_ in prog.fn(o_ + '::' + n_, s_)[0].params if p_['t'] == scalar]) < (dim or 0)))
+                ctx.ob('C14.K3', 'arity|%s|%s' % (short, sc), not few, ctor.where,
+                       '%s has dimension %s but answers %s: a field of a %s-dimensional solution cannot be evaluated at fewer coordinates (it must be the -1.33 stub)' % (short, dim, few[:3], dim),
+                       sample='%s: every provided evaluator takes at least %s coordinates' % (short, dim), nontrivial=False)
                 ctx.ob('C14.K3', '%s|%s' % (short, sc), dim is not None and dim == want, ctor.where,
                        'dimension of %s is %s; its evaluators take up to %d Scalar coordinates%s => expected %d' % (
                            short, dim, maxc, ' (one is time)' if short in tt['temporal'] else '', want),
@@ -254,6 +292,12 @@ def run(ctx, prog):
                 E = terms.Evaluator(prog, dyn_class=cls, scalar=scalar, regmap=regmap, opaque=('register_var', 'register_vec'))
                 E.vecmodel = True
                 E.loop_new_members = True       # a member first assigned inside a summarised loop keeps a (summary) value
+                vreg = [r for r in regs if r['kind'] == 'var']
+                if vreg and all(r['path'] and r['path'][0] == 'this' for r in vreg):
+                    # the slot array as construction leaves it: vararr[k] is the address of the k-th registered member (slot 0 is
+                    # the dummy), num_vars their number - what a default-setting loop over the slots writes to
+                    E.init_mem = {'vararr': ('cvec', (('unk', 'dummy slot'),) + tuple(('addr', ('sym', '.'.join(r['path'][1:]))) for r in vreg)),
+                                  'num_vars': terms.num(len(vreg))}
                 outs = E.run(iv)
                 from .. import loops as loopmod
                 whole_map_set = bool(E.trace.setvar_all) and all(any(t_[0] for t_ in loopmod.traversals(o_.events, 'varmap')) for o_ in outs)
@@ -346,6 +390,22 @@ def run(ctx, prog):
                 elif c.get('n') == 'init_var':
                     order.append('init')
             ok = 'init' in order and order.index('init') > max([i for i, o in enumerate(order) if o == 'reg'] or [-1])
+            if not ok:
+                # the constructor chain evaluated (an intermediate base-class constructor may register and initialise)
+                from ..api import flat as flat_events
+                Ec = terms.Evaluator(prog, dyn_class=cls, scalar=scalar, opaque=('register_var', 'register_vec', 'init_var', 'foreach_parameter'))
+                try:
+                    outs_c = Ec.run(ctor)
+                except RecursionError:
+                    outs_c = []
+                ok = bool(outs_c)
+                nreg = 0
+                for o_ in outs_c:
+                    seq = [('init' if e_[1][0].endswith('::init_var') else 'reg') for e_ in flat_events(o_.events)
+                           if e_[0] == 'call' and e_[1][0].split('::')[-1] in ('register_var', 'register_vec', 'foreach_parameter', 'init_var')]
+                    nreg = max(nreg, seq.count('reg'))
+                    ok = ok and 'init' in seq and max(i for i, x in enumerate(seq) if x == 'init') > max([i for i, x in enumerate(seq) if x == 'reg'] or [-1])
+                order = ['reg'] * nreg
             ctx.ob('C14.K5', '%s|%s' % (short, sc), ok, ctor.where, 'constructor of %s does not call init_var() after its last registration' % short,
                    sample='%s: %d registrations then init_var()' % (short, order.count('reg')))
             # ---- K7
